@@ -30,3 +30,24 @@ Proof. split; vm_compute; [reflexivity | discriminate]. Qed.
 
 Example C03_nonvacuous : dom03 (mkT true (ILit [s2l "a"; s2l "b"]), DStr (s2l "a")) = true.
 Proof. reflexivity. Qed.
+
+(* ---- the argparse row of the normal-form table is not only measured: it is DERIVED from the two halves of the argparse hop.  For EVERY
+   parameter of the table's domain on which the halves are consistent (a None default belongs to an Optional type; the members of an
+   Optional Literal do not spell "Optional"): what the emitter registers (Model/Exec.v: argparse_action, compared with a live
+   ArgumentParser by C04's check) read back by the transcribed reader (Model/ArgRead.v: parse_out_param, compared with the code on
+   generated calls by this check and C02's) has the type and the default that N0 FArgparse states. *)
+From CDD Require Exec ArgRead ArgChainProofs.
+Theorem C03_argparse_row_derived : forall name t d, ArgChainProofs.chain_dom (t, d) = true ->
+  match N0 FArgparse (t, d) with
+  | Some (t', d') =>
+      exists r, ArgRead.parse_out_param (ArgChainProofs.call_of name (Exec.argparse_action (t, d))) = Some r
+                /\ ArgRead.r_typ r = ArgChainProofs.render_ctyp t' /\ ArgRead.r_default r = ArgChainProofs.adefault_of d'
+  | None => True
+  end.
+Proof. exact ArgChainProofs.argparse_row_derived. Qed.
+Print Assumptions C03_argparse_row_derived.
+Example C03_argparse_row_examples :
+  ArgChainProofs.chain_dom (mkT false (IBase BInt), DAbs) = true /\ ArgChainProofs.chain_dom (mkT true (ILit [s2l "a"; s2l "b"]), DStr (s2l "a")) = true
+  /\ option_map ArgRead.r_typ (ArgRead.parse_out_param (ArgChainProofs.call_of (s2l "n") (Exec.argparse_action (mkT true (ILit [s2l "b"; s2l "a"]), DAbs))))
+      = Some (s2l "Optional[Literal['b', 'a']]").
+Proof. exact ArgChainProofs.argparse_row_examples. Qed.
